@@ -206,7 +206,9 @@ class Session:
             return goal
         if isinstance(goal, V.SBool):
             goal = goal.term
-        st, be, dt, model, detail = solve(I.pc + I.axioms_path + list(extra), goal, names=self.names)
+        hyps = I.pc + I.axioms_path + list(extra)
+        hyps = hyps + V.auto_axioms(goal, *hyps)
+        st, be, dt, model, detail = solve(hyps, goal, names=self.names)
         c.add(st, be, dt, detail, model if st == REFUTED else None, witness)
         return st == DISCHARGED
 
